@@ -33,6 +33,7 @@ var c02Spellings = []gen.Spelling{
 	{Unit: "    ", Bullet: 3, FinalNL: false},
 	{Unit: "   ", Bullet: 0, CRLF: true, Blanks: 1, FinalNL: true},
 	{Unit: " ", Bullet: 2, Blanks: 2, FinalNL: true},
+	{Unit: "\t\t", Bullet: 3, FinalNL: true}, // "whatever you specify": two tabs per level
 }
 
 func runC02(c *Ctx) bool {
